@@ -78,8 +78,18 @@ def errJson : Err → List (String × Json)
   | .option w => [("class", "option"), ("what", hx w)]
   | .write => [("class", "write")]
 
+/-- a period bound that is no date in the configured layout goes to the free-text date reader (`naturaldate`), which is
+    not modelled — except for texts of the shape `dddd?dd?dd` (a date in another numeric layout, or an impossible
+    calendar date), which that reader rejects: those are errors in the model too -/
+def numericDateShape (s : Bytes) : Bool :=
+  match s with
+  | [a, b, c, d, s1, e, f, s2, g, h] =>
+    [a, b, c, d, e, f, g, h].all Bytes.isDigit && [s1, s2].all (fun x => x == 47 || x == 45 || x == 46)
+  | _ => false
+
 def loadErrStr : LoadErr → String
-  | .configMissing => "configMissing" | .badToday => "badToday" | .badDate _ => "unsupported"
+  | .configMissing => "configMissing" | .badToday => "badToday"
+  | .badDate s => if numericDateShape s then "badDateNumeric" else "unsupported"
   | .badLayout => "unsupported" | .badDepth => "badDepth" | .badCommand => "unsupported"
 
 def parseBook (j : Json) : Except String Book := do
